@@ -260,6 +260,27 @@ class Prover:
         self._facts_cache[node] = out
         return out
 
+    def explicit_facts_at(self, node):
+        """facts from the comparisons the code itself makes on the way to `node` (switch conditions of dominating edges) -
+        not the implicit bounds checks of earlier index expressions, which facts_at includes as well"""
+        cfg = self.an.cfg
+        out = []
+        for d in cfg.dominators(node):
+            ec = self.an.edge_cond.get(d)
+            if ec is None or ec[0] != "switch":
+                continue
+            _, D, label, dty = ec
+            if label[0] == "switch":
+                self.decompose_eq(D, label[1], dty, out)
+            else:
+                vals = label[1]
+                if dty == "bool" and len(vals) == 1:
+                    self.decompose_eq(D, 1 - vals[0], dty, out)
+                else:
+                    for v in vals:
+                        self.decompose_ne(D, v, dty, out)
+        return out
+
     def _correlated_facts(self, node, out):
         """a value that was branched on earlier and is branched on (or otherwise decided) again: when a switch S dominates
         `node`, none of S's arms does (the arms have merged), and the facts at `node` decide which arm S took, then what
@@ -452,10 +473,38 @@ class Prover:
             return
         out.append(("nec", D, v))
 
+    def _const_range(self, v, depth=0):
+        """(lo, hi inclusive) of a range value built from constants, through references and promoted constants"""
+        if depth > 6 or not isinstance(v, tuple) or not v:
+            return None
+        if v[0] == "promoted":
+            v = self.an.promoted_pointee(v) or v
+        if v[0] in ("ref", "byref"):
+            return self._const_range(v[1], depth + 1) if isinstance(v[1], tuple) else None
+        if v[0] == "init" and v[1][0] == "deref":
+            return self._const_range(v[1][1], depth + 1)
+        if v[0] == "agg" and isinstance(v[1], str) and v[1].endswith(":Range") and len(v[2]) == 2 and all(x[0] == "const" for x in v[2]):
+            return (v[2][0][1], v[2][1][1] - 1)
+        if v[0] == "agg" and "RangeInclusive" in str(v[1]) and len(v[2]) >= 2 and v[2][0][0] == "const" and v[2][1][0] == "const":
+            return (v[2][0][1], v[2][1][1])
+        if v[0] == "call" and "range" in v[1] and v[1].endswith("::new") and len(v[2]) == 2 and all(x[0] == "const" for x in v[2]):
+            return (v[2][0][1], v[2][1][1])
+        return None
+
     def truth(self, D, val, out, depth=0):
         t = D[0]
         if t == "const":
             return
+        if t == "call" and val and D[1].rsplit("::", 1)[-1] == "contains" and len(D[2]) == 2 and "range" in D[1]:
+            # (lo..=hi).contains(&x) holds: lo <= x <= hi
+            r = self._const_range(D[2][0])
+            x = D[2][1]
+            while x[0] in ("ref", "byref") and isinstance(x[1], tuple) and x[1] and isinstance(x[1][0], str):
+                x = x[1]
+            if r is not None and isinstance(r[0], int) and isinstance(r[1], int):
+                lx = self.lin(x)
+                out.append(("le", lin_add(lx, lin_const(r[1]), -1)))
+                out.append(("le", lin_add(lin_const(r[0]), lx, -1)))
         if t == "not":
             self.truth(D[1], not val, out)
             return
